@@ -17,6 +17,7 @@ CONSTANTS
   MaxDiscs = 8
   VerifyArgs <- VArgs
   Ticks = {0}
+  NarrowSels <- NoNarrow
   KeyFam <- Fam
 INVARIANTS Inv_C02 Inv_C03 Inv_C08 Inv_C08why Inv_C09 EmitScenario
 CHECK_DEADLOCK FALSE
